@@ -3,6 +3,8 @@ import CCVerif.Lemmas.EvalSetOps
 import CCVerif.Lemmas.EvalExamples
 import CCVerif.Lemmas.EvalExamples6
 import CCVerif.Lemmas.EvalExamples7
+import CCVerif.Lemmas.EvalExamples8
+import CCVerif.Lemmas.EvalExamples7n
 /-!
 # C01 — evaluation returns the set-theoretic value
 
@@ -686,5 +688,149 @@ example : Stage7 Examples7.env7 Examples7.caller :=
   ⟨_, _, _, _, 2, 10, Examples7.globalsOK_7, Examples7.callerN_frag, Examples7.caller_beta, Examples7.caller_normalizes⟩
 example : (evaluate 20 Examples7.env7 Examples7.caller).1 = .ok (.s [.e 1, .e 2]) ∧
     denote (senvOf Examples7.env7) 22 .nil Examples7.caller = some (.val (.s [.e 1, .e 2])) := by decide
+
+/-! ## stage 8: filters `Fi_{i1..ik}[P1,…,Pk](S)` and `Fi_{i1,…,ik}[P](S)`
+
+`ASTInterpreter::ViFilter` evaluates the argument `S` first and answers `∅` at once when it is empty (no parameter is
+evaluated).  With as many parameters as indices (`EvaluateFilterTuple`) the parameters are evaluated left to right, each
+once, and the first EMPTY one ends the evaluation with `∅` (the later ones are not evaluated); otherwise a member `x` of
+`S` is kept when `pr_{i_j}(x) ∈ P_j` for every `j` (conjunction stopped at the first `false`).  With ONE parameter for
+`k ≥ 2` indices (`EvaluateFilterComplex`) `x` is kept when the tuple `pr_{i_1,…,i_k}(x)` is a member of `P`.
+The reference semantics (`Spec/Denote.lean`, `FILTER`): `{x ∈ S | ∀j. pr_{i_j}(x) ∈ P_j}` resp. `{x ∈ S | pr_idx(x) ∈ P}`,
+strong Kleene in the sense that an empty `S` or an empty `P_j` decides the result `∅` whatever the other operands are.
+Hence the evaluator refines it: whenever the evaluator skips an operand, the reference value does not depend on it.
+The converse fails (and is not claimed): `filter_error_before_empty_example`.
+
+`FragF` (`Lemmas/EvalFiltersSim.lean`) is the typed fragment `FragR` of stages 1-6, constructor by constructor, plus the
+two filter forms (typing: `S : ℬ(τ₁×…×τₙ)`, `P_j : ℬ(τ_{i_j})`, resp. `P : ℬ(τ_{i_1}×…×τ_{i_k})`; result `ℬ(τ₁×…×τₙ)`);
+filters may occur anywhere (under binders, `R{}`, `I{}`, in domains of tuple patterns, nested in each other) and contain
+anything of stages 1-6.  `FragR.toF` embeds the old fragment.  The normaliser does not rewrite a `FILTER` node; the
+pending substitutions of tuple patterns go through it (`FragF.normRel`).
+Not covered: calls (`Beta` of stage 7 has no rule for `FILTER`), the restrictions of stages 1-6. -/
+
+/-- stage 8: stage 6 + filters -/
+def Stage8 (env : Env) (e : Ast) : Prop :=
+  ∃ G τ n, GlobalsOK env G ∧ FragF env G 6 [] [] e n τ ∧ NoCollide (patsOf e)
+
+theorem stage6_sub_stage8 {env : Env} {e : Ast} (h : Stage6 env e) : Stage8 env e :=
+  let ⟨G, τ, n, hG, hf, hP⟩ := h; ⟨G, τ, n, hG, hf.toF (Nat.le_refl _), hP⟩
+
+private theorem top_of_frag8 {env : Env} {G : TCtx} (hG : GlobalsOK env G) {e n : Ast} {τ : ExprTy}
+    (h : FragF env G 6 [] [] e n τ) (hP : NoCollide (patsOf e)) (fuel : Nat) :
+    TopGood env fuel e τ (evaluate fuel env e).1 ∨ (evaluate fuel env e).1 = .outOfFuel ∨
+    ∃ eid pos, (evaluate fuel env e).1 = .err eid pos ∧ DocErr eid :=
+  evaluate_fragF_of_norm hG h fuel (h.normalizesTree6 hP fuel)
+
+/-- **eval_refines_denote_partial8_stable**: the refinement for closed expressions of stage 6 extended with filters
+(both forms, anywhere in the expression): a value returned by `Interpreter::Evaluate` is the value the reference
+semantics assigns to the original tree, at the evaluator's fuel and at every larger one. -/
+theorem eval_refines_denote_partial8_stable (env : Env) (e : Ast) (h : Stage8 env e) (fuel f' : Nat) (hf' : fuel ≤ f') :
+    (∀ v, (evaluate fuel env e).1 = .ok v → denote (senvOf env) f' .nil e = some (.val v)) ∧
+    (∀ b, (evaluate fuel env e).1 = .okBool b → denote (senvOf env) f' .nil e = some (.bool b)) := by
+  obtain ⟨G, τ, n, hG, hf, hP⟩ := h
+  rcases top_of_frag8 hG hf hP fuel with hg | ho | ⟨eid, pos, he, _⟩
+  · cases τ with
+    | ty ty =>
+      obtain ⟨v, hr, _, _, hd⟩ := hg
+      constructor
+      · intro v' hv; rw [hr] at hv; injection hv with hv; rw [← hv]; exact hd f' hf'
+      · intro b hb; rw [hr] at hb; cases hb
+    | logic =>
+      obtain ⟨b, hr, hd⟩ := hg
+      constructor
+      · intro v hv; rw [hr] at hv; cases hv
+      · intro b' hb; rw [hr] at hb; injection hb with hb; rw [← hb]; exact hd f' hf'
+  · constructor <;> intro x hx <;> rw [ho] at hx <;> cases hx
+  · constructor <;> intro x hx <;> rw [he] at hx <;> cases hx
+
+/-- **eval_refines_denote_partial8**: `eval_refines_denote_statement` on stage 8 (stages 1-6 + filters).
+Missing from the full statement: calls together with filters, nested patterns, patterns in `R{}` / `I{}` / enumerated
+declarations, colliding candidate names, `Z`, `ℬ` of operands with more than `2^POW_BOUND` subsets, typings that need
+the any-type. -/
+theorem eval_refines_denote_partial8 : eval_refines_denote_statement Stage8 :=
+  fun env e h fuel => eval_refines_denote_partial8_stable env e h fuel fuel (Nat.le_refl _)
+
+/-- **normalize_filter_partial8**: what the normaliser returns on stage 8: the normal form of the judgement - filters
+untouched (their parameters and argument normalised, substitutions of enclosing tuple patterns applied inside them) -/
+theorem normalize_filter_partial8 (env : Env) (e n : Ast) (G : TCtx) (τ : ExprTy) (h : FragF env G 6 [] [] e n τ)
+    (hP : NoCollide (patsOf e)) (fuel : Nat) :
+    normalizeTree env.funcs fuel e = none ∨ normalizeTree env.funcs fuel e = some n :=
+  h.normalizesTree6 hP fuel
+
+/-! non-vacuity of stage 8 (`Lemmas/EvalExamples8.lean`), with `S = {1,2}×{1,2}`:
+`Fi1[{1}](S) = {(1,1),(1,2)} & Fi1,2[{(1,2)}](S) = {(1,2)} & card(Fi1,2[{1}\{1}, {debool({1,2})}](S)) = 0 &
+card(Fi1[{debool({1,2})}](S\S)) = 0 & ∀(a,b)∈Fi2[{2}](S) b=2` - both filter forms; a first parameter that is empty while
+the second would raise `invalidDebool`; an empty argument with an erroneous parameter; a tuple pattern over a filter -/
+example : Stage8 Examples.env0 Examples.e8 := ⟨[], _, _, globalsOK_nil _, Examples.e8_frag, Examples.e8_nocollide⟩
+example : normalizeTree Examples.env0.funcs 30 Examples.e8 = some Examples.e8n := by rfl
+example : (evaluate 30 Examples.env0 Examples.e8).1 = .okBool true ∧
+    denote (senvOf Examples.env0) 30 .nil Examples.e8 = some (.bool true) := by decide
+example : Stage8 Examples.env0 Examples.e8v := ⟨[], _, _, globalsOK_nil _, Examples.e8v_frag _ _, Examples.e8v_nocollide⟩
+example : (evaluate 30 Examples.env0 Examples.e8v).1 = .ok (.s [.t [.e 1, .e 1], .t [.e 1, .e 2]]) ∧
+    denote (senvOf Examples.env0) 30 .nil Examples.e8v = some (.val (.s [.t [.e 1, .e 1], .t [.e 1, .e 2]])) := by decide
+
+/-- `Fi1,2[{debool({1,2})}, {1}\{1}]({1,2}×{1,2})` -/
+def filterErrorBeforeEmpty : Ast :=
+  Examples.fi [1, 2] [Examples.badParam, nd .SET_MINUS [Examples.enum1, Examples.enum1], Examples.sq]
+
+/-- **filter_error_before_empty_example**: only the refinement direction holds for filters.  The evaluator evaluates
+the parameters left to right: an erroneous parameter BEFORE an empty one makes it fail with the documented
+`invalidDebool`, while the reference semantics - for which any empty parameter decides the result - has the value `∅`.
+(The evaluator is never MORE defined than the reference: `eval_refines_denote_partial8`.) -/
+theorem filter_error_before_empty_example :
+    (evaluate 30 Examples.env0 filterErrorBeforeEmpty).1 = .err EID.invalidDebool 0 ∧
+    denote (senvOf Examples.env0) 30 .nil filterErrorBeforeEmpty = some (.val (.s [])) := by decide
+
+/-! ## stage 7, the normaliser side: calls with call-free, binder-free arguments and bodies
+
+`CN fs [] e es` (`Lemmas/EvalCallsNorm.lean`): `e` is built from literals, globals, bound variables, the unary / binary /
+n-ary constructs of stage 7, `∀ ∃ D{x∈S | P}` over one new plain variable, and calls `F[a₁,…,aₙ]` - anywhere, also under
+binders - whose arguments are call-free and binder-free (they may mention the bound variables) and whose definition
+`F :== [p₁∈…,…,pₙ∈…] body` has distinct parameters and a call-free, binder-free body over its parameters and the
+globals; `es` is `e` with every call replaced by the body, argument trees in place of the parameters, the other nodes of
+the body re-ranged to the range of the call.  For this class the per-expression hypothesis of `Stage7` (`the normaliser
+returns the normal form of a β-reduct`) is a theorem: no `__var<n>` is generated because the bodies bind nothing. -/
+
+/-- **normalize_correct_partial7**: on the class `CN` the normaliser ALWAYS (at every fuel, or it runs out of the model's
+fuel) returns the inlined form `es`, and `es` is a β-reduct of `e` in the sense of `Beta` (offset 2: the call, the
+parameter look-up) - sound for the thunk semantics of `⟦·⟧` by `Beta.sound`.  NOT covered: bodies / arguments with
+binders (there `Normalizer::Function` generates `__var<n>` names) or with calls; the unconditional equation `⟦n⟧ = ⟦e⟧`
+of `normalize_correct_statement`. -/
+theorem normalize_correct_partial7 (fs : Funcs) (e es : Ast) (h : CN fs [] e es) :
+    Beta fs 2 [] e es ∧ ∀ fuel, normalizeTree fs fuel e = none ∨ normalizeTree fs fuel e = some es :=
+  ⟨h.beta, h.normalizesTree⟩
+
+/-- stage 7 without the per-expression normaliser hypothesis: the class `CN`, its inlined form typed in stage 6 -/
+def Stage7n (env : Env) (e : Ast) : Prop :=
+  ∃ G τ es, GlobalsOK env G ∧ CN env.funcs [] e es ∧ FragR env G 6 [] [] es es τ
+
+/-- **eval_refines_denote_partial7n**: `eval_refines_denote_calls_statement` (the reference gets 2 more units of fuel)
+for expressions with calls of the class `CN` - no hypothesis about what the normaliser returns -/
+theorem eval_refines_denote_partial7n : eval_refines_denote_calls_statement Stage7n := by
+  intro env e ⟨G, τ, es, hG, hcn, hf⟩
+  refine ⟨2, fun fuel f' hf' => ?_⟩
+  rcases evaluate_calls' hG hf hcn.beta hcn.normalizesTree fuel with hg | ho | ⟨eid, pos, he, _⟩
+  · cases τ with
+    | ty ty =>
+      obtain ⟨v, hr, _, _, hd⟩ := hg
+      constructor
+      · intro v' hv; rw [hr] at hv; injection hv with hv; rw [← hv]; exact hd f' hf'
+      · intro b hb; rw [hr] at hb; cases hb
+    | logic =>
+      obtain ⟨b, hr, hd⟩ := hg
+      constructor
+      · intro v hv; rw [hr] at hv; cases hv
+      · intro b' hb; rw [hr] at hb; injection hb with hb; rw [← hb]; exact hd f' hf'
+  · constructor <;> intro x hx <;> rw [ho] at hx <;> cases hx
+  · constructor <;> intro x hx <;> rw [he] at hx <;> cases hx
+
+/-! non-vacuity (`Lemmas/EvalExamples7n.lean`): `F2 :== [s∈ℬ(X1), t∈ℬ(X1)] s∩t`, caller `D{x∈X1 | F2[{x}, X1] = {x}}` over
+`X1 = {1,2}` (a call under a binder, an argument that mentions the bound variable); inlined form `D{x∈X1 | {x}∩X1 = {x}}` -/
+example : CN Examples7.env7n.funcs [] Examples7.caller2 Examples7.caller2N := Examples7.caller2_cn
+example : Stage7n Examples7.env7n Examples7.caller2 :=
+  ⟨_, _, _, Examples7.globalsOK_7n, Examples7.caller2_cn, Examples7.caller2N_frag⟩
+example : normalizeTree Examples7.env7n.funcs 10 Examples7.caller2 = some Examples7.caller2N := by rfl
+example : (evaluate 20 Examples7.env7n Examples7.caller2).1 = .ok (.s [.e 1, .e 2]) ∧
+    denote (senvOf Examples7.env7n) 22 .nil Examples7.caller2 = some (.val (.s [.e 1, .e 2])) := by decide
 
 end CCVerif.Eval
